@@ -1,16 +1,19 @@
 // Translator for property C05: reads the Go sources under $VERIF_REPO/writer and writes
 // coq/gen/GenGoroutinesWriter.v:
-//   gen_goroutines      every `go` statement (file, enclosing function, ordinal, target, whether the spawned
-//                       body -- or every function of that name, for `go x.f()` -- begins with a deferred recover)
-//   gen_error_handler   controller/builder.go ErrorHandler as a list of branches
-//   gen_error_codes     the status codes of every QrynError / UnMarshalError composite literal
-//   gen_snappy_limit    the decoded-length limit enforced by withUnsnappyRequest (None if absent)
-//   gen_fastfill_callers number of call sites of impl.fastFill (the loop that never ends for len > 1)
-//   gen_ns_guard        whether the loop of unmarshal.ns is guarded against 0
+//
+//	gen_goroutines      every `go` statement (file, enclosing function, ordinal, target, whether the spawned
+//	                    body -- or every function of that name, for `go x.f()` -- begins with a deferred recover)
+//	gen_error_handler   controller/builder.go ErrorHandler as a list of branches
+//	gen_error_codes     the status codes of every QrynError / UnMarshalError composite literal
+//	gen_snappy_limit    the decoded-length limit enforced by withUnsnappyRequest (None if absent)
+//	gen_fastfill_callers number of call sites of impl.fastFill (the loop that never ends for len > 1)
+//	gen_ns_guard        whether the loop of unmarshal.ns is guarded against 0
+//
 // Only the standard library is used (go/ast).
 package main
 
 import (
+	"encoding/json"
 	"fmt"
 	"go/ast"
 	"go/constant"
@@ -20,6 +23,7 @@ import (
 	"os"
 	"path/filepath"
 	"sort"
+	"strconv"
 	"strings"
 )
 
@@ -109,6 +113,123 @@ func recvName(fd *ast.FuncDecl) string {
 	return fd.Name.Name
 }
 
+func unquote(lit string) string {
+	if u, err := strconv.Unquote(lit); err == nil {
+		return u
+	}
+	return strings.Trim(lit, "`\"")
+}
+
+// the literal part of a format string before its first verb
+func formatHead(f string) string {
+	if i := strings.Index(f, "%"); i >= 0 {
+		return f[:i]
+	}
+	return f
+}
+
+type errSite struct{ file, fn, kind, head, format string }
+type textCompare struct{ file, fn, kind, lit string }
+
+var typedWrappers = map[string]bool{"NewUnmarshalError": true, "New400Error": true, "New401Error": true, "New429Error": true}
+
+// untyped error constructions (fmt.Errorf / errors.New) that are not the direct argument of a typed wrapper,
+// and comparisons of an error's TEXT with a literal (strings.HasPrefix/Contains/HasSuffix(x.Error(), "lit"))
+func scanErrors(f *ast.File, rel string, sites *[]errSite, cmps *[]textCompare) {
+	for _, d := range f.Decls {
+		fd, ok := d.(*ast.FuncDecl)
+		if !ok || fd.Body == nil {
+			continue
+		}
+		fn := recvName(fd)
+		// functions that look at an error's text at all (x.Error() somewhere in the body)
+		looksAtText := false
+		ast.Inspect(fd.Body, func(n ast.Node) bool {
+			if c, ok := n.(*ast.CallExpr); ok && calleeName(c.Fun) == "Error" && len(c.Args) == 0 {
+				looksAtText = true
+			}
+			return !looksAtText
+		})
+		var stack []ast.Node
+		ast.Inspect(fd.Body, func(n ast.Node) bool {
+			if n == nil {
+				stack = stack[:len(stack)-1]
+				return true
+			}
+			stack = append(stack, n)
+			c, ok := n.(*ast.CallExpr)
+			if !ok {
+				return true
+			}
+			sel, _ := c.Fun.(*ast.SelectorExpr)
+			pkg := ""
+			if sel != nil {
+				if id, ok := sel.X.(*ast.Ident); ok {
+					pkg = id.Name
+				}
+			}
+			name := calleeName(c.Fun)
+			if pkg == "strings" && (name == "HasPrefix" || name == "Contains" || name == "HasSuffix") && len(c.Args) == 2 {
+				if lit, ok := c.Args[1].(*ast.BasicLit); ok && lit.Kind == token.STRING && looksAtText {
+					*cmps = append(*cmps, textCompare{rel, fn, name, unquote(lit.Value)})
+				}
+			}
+			isErrorf := pkg == "fmt" && name == "Errorf"
+			isNew := pkg == "errors" && name == "New"
+			if (isErrorf || isNew) && len(c.Args) >= 1 {
+				if len(stack) >= 2 {
+					if pc, ok := stack[len(stack)-2].(*ast.CallExpr); ok && typedWrappers[calleeName(pc.Fun)] {
+						return true
+					}
+				}
+				st := errSite{file: rel, fn: fn, kind: name}
+				if lit, ok := c.Args[0].(*ast.BasicLit); ok && lit.Kind == token.STRING {
+					st.format = unquote(lit.Value)
+					st.head = st.format
+					if isErrorf {
+						st.head = formatHead(st.format)
+					}
+				} else {
+					st.format = "<" + exprString(c.Args[0]) + ">"
+					st.head = ""
+				}
+				*sites = append(*sites, st)
+			}
+			return true
+		})
+	}
+}
+
+// Coq string literal for arbitrary bytes (non-printables via ascii_of_nat)
+func coqStr(s string) string {
+	printable := true
+	for i := 0; i < len(s); i++ {
+		if s[i] < 32 || s[i] > 126 {
+			printable = false
+		}
+	}
+	if printable {
+		return q(s)
+	}
+	var parts []string
+	cur := ""
+	for i := 0; i < len(s); i++ {
+		if s[i] >= 32 && s[i] <= 126 {
+			cur += string(s[i])
+			continue
+		}
+		if cur != "" {
+			parts = append(parts, q(cur))
+			cur = ""
+		}
+		parts = append(parts, fmt.Sprintf("(String (Ascii.ascii_of_nat %d) EmptyString)", s[i]))
+	}
+	if cur != "" {
+		parts = append(parts, q(cur))
+	}
+	return "(" + strings.Join(parts, " ++ ") + ")"
+}
+
 func q(s string) string { return `"` + strings.ReplaceAll(s, `"`, `""`) + `"` }
 
 func constInt(e ast.Expr) (int64, bool) {
@@ -188,9 +309,10 @@ func translateErrorHandler(fd *ast.FuncDecl) []string {
 					continue
 				}
 			}
-			if c, ok := s.Cond.(*ast.CallExpr); ok && calleeName(c.Fun) == "HasPrefix" && len(c.Args) == 2 {
+			if c, ok := s.Cond.(*ast.CallExpr); ok && len(c.Args) == 2 && (calleeName(c.Fun) == "HasPrefix" || calleeName(c.Fun) == "Contains") {
 				if lit, ok := c.Args[1].(*ast.BasicLit); ok {
-					out = append(out, "BrPrefix "+q(strings.Trim(lit.Value, `"`))+" "+action)
+					kind := map[string]string{"HasPrefix": "BrPrefix ", "Contains": "BrContains "}[calleeName(c.Fun)]
+					out = append(out, kind+q(unquote(lit.Value))+" "+action)
 					continue
 				}
 			}
@@ -242,9 +364,14 @@ func main() {
 	snappyLimit := "None"
 	fastFillCallers := 0
 	nsGuard := "false"
+	var sites []errSite
+	var cmps []textCompare
 	for _, p := range files {
 		f := parsed[p]
 		rel, _ := filepath.Rel(root, p)
+		if (strings.HasPrefix(rel, "controller/") || strings.HasPrefix(rel, "utils/unmarshal/")) && !strings.Contains(rel, "/legacy/") {
+			scanErrors(f, rel, &sites, &cmps)
+		}
 		for _, d := range f.Decls {
 			name := ""
 			var body ast.Node
@@ -351,6 +478,37 @@ func main() {
 	b.WriteString("Definition gen_snappy_limit : option Z := " + snappyLimit + ".\n\n")
 	fmt.Fprintf(&b, "Definition gen_fastfill_callers : Z := %d.\n\n", fastFillCallers)
 	b.WriteString("Definition gen_ns_guard : bool := " + nsGuard + ".\n")
+	b.WriteString("\n(* untyped errors built under controller/ and utils/unmarshal/ (not the direct argument of a typed wrapper):\n   (file, function, fmt.Errorf | errors.New, literal text before the first verb, whole format) *)\n")
+	b.WriteString("Definition gen_untyped_error_sites : list (string * string * string * string * string) := [\n")
+	for i, st := range sites {
+		sep := ";"
+		if i == len(sites)-1 {
+			sep = ""
+		}
+		fmt.Fprintf(&b, "  (%s, %s, %s, %s, %s)%s\n", coqStr(st.file), coqStr(st.fn), coqStr(st.kind), coqStr(st.head), coqStr(st.format), sep)
+	}
+	b.WriteString("].\n\n(* comparisons of an error's text with a literal in controller/: (file, function, HasPrefix|Contains|HasSuffix, literal) *)\n")
+	b.WriteString("Definition gen_error_text_compares : list (string * string * string * string) := [\n")
+	phrases := []string{}
+	for i, c := range cmps {
+		sep := ";"
+		if i == len(cmps)-1 {
+			sep = ""
+		}
+		fmt.Fprintf(&b, "  (%s, %s, %s, %s)%s\n", coqStr(c.file), coqStr(c.fn), coqStr(c.kind), coqStr(c.lit), sep)
+		dup := false
+		for _, p := range phrases {
+			dup = dup || p == c.lit
+		}
+		if !dup {
+			phrases = append(phrases, c.lit)
+		}
+	}
+	b.WriteString("].\n")
+	// side file for the harness: the literal texts that status-deciding code compares error texts with
+	if js, err := json.Marshal(map[string]interface{}{"phrases": phrases}); err == nil {
+		os.WriteFile(strings.TrimSuffix(outPath, ".v")+".json", js, 0644)
+	}
 	tmp := outPath + ".tmp"
 	if err := os.WriteFile(tmp, []byte(b.String()), 0644); err != nil {
 		fmt.Fprintln(os.Stderr, err)
